@@ -368,6 +368,40 @@ def large_blocks(ctx, rng):
             ctx.nontrivial(("large", name, dt, flavour, sym, ferm))
 
 
+def sparse_hermitian(ctx, rng):
+    """eigh of Hermitian matrices with MISSING diagonal sectors, single precision and complex:
+    eigenvalues real of matching precision, every eigenvector block of the input's type."""
+    from symv import lingen
+
+    sr = ctx.sr
+    dt = rng.choice(["complex64", "complex128", "float32", "complex64"])
+    x, feats = lingen.hermitian_matrix(ctx, rng, dtype=dt)
+    if x is None or len(x.blocks) < 1:
+        return
+    if len(x.blocks) >= 2 and rng.random() < 0.7:
+        for s_ in rng.sample(list(x.blocks), rng.randint(1, len(x.blocks) - 1)):
+            del x.blocks[s_]
+        ctx.count("hermitian", "missing-diagonal-sector")
+    for s_ in list(x.blocks):
+        x.blocks[s_] = np.asarray(x.blocks[s_]).astype(dt)
+    import autoray as ar
+
+    via = rng.choice(["function", "autoray"])
+    o = ctx.call((lambda: sr.linalg.eigh(x)) if via == "function" else (lambda: ar.do("linalg.eigh", x)))
+    ctx.evaluated()
+    ctx.count("dtype", dt)
+    ctx.count("op", "sparse-hermitian:eigh")
+    wit = {"dtype": dt, "x": describe(x), "via": via}
+    if not o.ok:
+        if isinstance(o.exc, Warning):
+            ctx.violation("complex-warning:eigh", f"eigh on {dt} data emitted {o.exc!r}", wit)
+        else:
+            ctx.count("raises", f"sparse-hermitian:{o.excname}")
+        return
+    if judge_dtype(ctx, "eigh", "svd", o.value, dt, wit) and dt != "float64":
+        ctx.nontrivial(("sparse-hermitian", dt, struct_sig(x)))
+
+
 def mixed_contraction(ctx, rng):
     """Contractions of two homogeneous operands of DIFFERENT element types (real x complex,
     single x double), over few or very many aligned sector pairs per output block, in every
@@ -451,6 +485,8 @@ def run(ctx):
         ctx.run_case(run_program, ctx, rng)
     for _, rng in ctx.cases("dedicated", ctx.budget(21000, 400000)):
         ctx.run_case(dedicated, ctx, rng)
+    for _, rng in ctx.cases("sparse-hermitian", ctx.budget(6000, 120000)):
+        ctx.run_case(sparse_hermitian, ctx, rng)
     for _, rng in ctx.cases("large-blocks", ctx.budget(900, 18000)):
         ctx.run_case(large_blocks, ctx, rng)
     for _, rng in ctx.cases("mixed-blocks", ctx.budget(5000, 100000)):
